@@ -362,8 +362,8 @@ def _run_own(ck):
     from .. import reffect, enumeval
     from .C11 import is_identity_obligations
     is_identity_obligations(ck, facts, ' (the test behind every "equal" answer)')
-    for key in ('graph::GraphLike::adjoint', 'graph::GraphLike::to_adjoint', 'graph::GraphLike::plug', 'graph::GraphLike::append_graph'):
-        reffect.check_schema(ck, 'R-EFFECT', key, E.C11_SCHEMAS[key], no_vars=False)
+    from .C11 import graph_function_obligations
+    graph_function_obligations(ck, facts, ['graph::GraphLike::adjoint', 'graph::GraphLike::to_adjoint', 'graph::GraphLike::plug', 'graph::GraphLike::append_graph'], E.C11_SCHEMAS)
     ET = 'graph::EType::'
     mg = enumeval.table(facts, 'graph::EType::merge', [[ET + 'N', ET + 'H'], [ET + 'N', ET + 'H']])
     wantm = {(ET + 'N', ET + 'N'): ET + 'N', (ET + 'N', ET + 'H'): ET + 'H', (ET + 'H', ET + 'N'): ET + 'H', (ET + 'H', ET + 'H'): ET + 'N'}
